@@ -176,6 +176,11 @@ def run(tier, seed):
     chk.add_tlc(r, traces=1)
     infos = vlib.mismatch_infos(r["out"])
     for idx in d["lists"].get("mismatches", []):
+        if len(chk.violations) >= 8:
+            # every reported difference costs four more observations (reproduce, then locate); a tree on which everything
+            # differs is reported by its first eight
+            chk.cov["mismatches_not_analysed"] = chk.cov.get("mismatches_not_analysed", 0) + 1
+            continue
         e = evs[idx - 1]
         info = infos.get(("MISMATCH", idx), "")
         replay = dict(event={k: v for k, v in e.items() if k != "blocks"}, spec_says=info)
